@@ -55,6 +55,7 @@ type c39Stack struct {
 	st       storage.Storage
 	dflt     partstore.PartStore
 	cold     partstore.PartStore // nil unless named
+	extra    map[string]partstore.PartStore
 	objRepo  object.Repository
 	partRepo part.Repository
 }
@@ -98,10 +99,29 @@ func c39NewStack(scratch, dir, kind string) *c39Stack {
 		extra = map[string]partstore.PartStore{"cold": s.cold}
 		classMap = map[string]string{"GLACIER": "cold", "DEEP_ARCHIVE": "cold"}
 	}
+	s.extra = extra
 	s.st = verifx.Must(metadatapart.NewStorageWithNamedPartStores(db, verifx.NewMeta(db), s.dflt, extra, classMap))
 	s.objRepo = verifx.Must(repositoryfactory.NewObjectRepository(db))
 	s.partRepo = verifx.Must(repositoryfactory.NewPartRepository(db))
 	return s
+}
+
+// c39ClassMaps are the storage-class → part-store mappings a named stack can be (re)configured with.
+var c39ClassMaps = []map[string]string{
+	{"GLACIER": "cold", "DEEP_ARCHIVE": "cold"},
+	nil,
+	{"STANDARD": "cold"},
+	{"STANDARD_IA": "cold", "GLACIER": "cold"},
+}
+
+// remap re-opens the storage over the same database and part stores with another class mapping, as an
+// operator changing the configuration does: parts written from now on may land in a different store
+// than the earlier parts of the same object (an append keeps the object's class, not its store).
+func (s *c39Stack) remap(i int) {
+	if s.cold == nil {
+		return
+	}
+	s.st = verifx.Must(metadatapart.NewStorageWithNamedPartStores(s.db, verifx.NewMeta(s.db), s.dflt, s.extra, c39ClassMaps[i%len(c39ClassMaps)]))
 }
 
 func (s *c39Stack) close() {
@@ -119,12 +139,13 @@ func (s *c39Stack) storeOf(name *string) (partstore.PartStore, string, string) {
 // ---------------------------------------------------------------- scripts
 
 type c39Op struct {
-	op     string // put | mpu | app | cp | upc | trans | del
+	op     string // put | mpu | app | cp | upc | trans | del | remap
 	b, k   string
 	bodies [][]byte
 	ctype  string // "", FULL_OBJECT, COMPOSITE
 	cls    string // "", STANDARD, GLACIER, ...
 	sb, sk string // source for cp / upc
+	remap  int    // index into c39ClassMaps
 }
 
 type c39Cor struct {
@@ -233,6 +254,9 @@ func (r *c39Run) apply(o c39Op) error {
 		return err
 	case "trans":
 		return st.TransitionObjectStorageClass(ctx, B(o.b), K(o.k), o.cls, nil)
+	case "remap":
+		r.s.remap(o.remap)
+		return nil
 	case "del":
 		_, err := st.DeleteObject(ctx, B(o.b), K(o.k), nil)
 		if err == nil {
@@ -450,6 +474,10 @@ func (r *c39Run) run(sc c39Script, rng *verifx.Rng) {
 	out.Line("cfg stack=%s", sc.stack)
 	buckets := map[string]bool{}
 	for _, o := range sc.ops {
+		if o.op == "remap" {
+			_ = r.apply(o)
+			continue
+		}
 		if !buckets[o.b] {
 			buckets[o.b] = true
 			verifx.Check(r.s.st.CreateBucket(r.ctx, storage.MustNewBucketName(o.b)))
@@ -615,6 +643,10 @@ func c39Gen(r *verifx.Rng, thorough bool) c39Script {
 	}
 	for i := 0; i < nops; i++ {
 		b, k := bk(), verifx.Pick(r, keys)
+		if named && r.Chance(1, 7) {
+			sc.ops = append(sc.ops, c39Op{op: "remap", remap: r.Intn(len(c39ClassMaps))})
+			continue
+		}
 		switch x := r.Intn(20); {
 		case x < 6:
 			sc.ops = append(sc.ops, c39Op{op: "put", b: b, k: k, bodies: [][]byte{c39Body(r)}, cls: cls()})
@@ -660,7 +692,7 @@ func c39Gen(r *verifx.Rng, thorough bool) c39Script {
 			continue
 		}
 		last := sc.ops[len(sc.ops)-1]
-		if last.op != "del" && last.op != "trans" {
+		if last.op != "del" && last.op != "trans" && last.op != "remap" {
 			made = append(made, [2]string{last.b, last.k})
 		}
 	}
@@ -693,6 +725,15 @@ func c39Directed() []c39Script {
 			put("warm", []byte("warm"), ""), put("moved", []byte("to be moved"), ""), {op: "trans", b: b, k: "moved", cls: "GLACIER"},
 			put("ctl", []byte("control"), "")},
 			cors: []c39Cor{{b, "ctl", 0, "gone"}}})
+	}
+	// 2b: objects whose parts live in different stores (the class mapping is changed between a put and an append)
+	for _, stk := range []string{"named-fs", "named-sql"} {
+		out = append(out, c39Script{stack: stk, ops: []c39Op{put("log-intact", []byte("first chunk A"), "GLACIER"), put("log-bad-cold", []byte("first chunk B"), "GLACIER"),
+			put("log-bad-dflt", []byte("first chunk C"), "GLACIER"), put("std", []byte("standard"), ""), {op: "remap", remap: 1},
+			{op: "app", b: b, k: "log-intact", bodies: [][]byte{[]byte("second chunk A")}}, {op: "app", b: b, k: "log-bad-cold", bodies: [][]byte{[]byte("second chunk B")}},
+			{op: "app", b: b, k: "log-bad-dflt", bodies: [][]byte{[]byte("second chunk C")}}, {op: "remap", remap: 2},
+			{op: "app", b: b, k: "std", bodies: [][]byte{[]byte("+ cold tail")}}},
+			cors: []c39Cor{{b, "log-bad-cold", 0, "flip"}, {b, "log-bad-dflt", 1, "trunc"}}})
 	}
 	// 3: empty objects, intact, on the SQL part store (no chunk row exists for an empty part)
 	out = append(out, c39Script{stack: "sql", ops: []c39Op{put("empty", nil, ""), mpu("mpe", "", "", []byte("head"), nil, []byte("tail")), put("ctl", []byte("control"), "")},
